@@ -14,6 +14,7 @@ func init() {
 		Title: "Console encoder lines have the documented shape with a valid JSON context",
 		Fn:    checkC16,
 		Explanation: "Decides the console line's structure. The metadata columns are collected in the order time, level, name, caller, function, each under exactly its presence rule (guard-set equality). The grammar of the line itself is decided by exploring every path of consoleEncoder.EncodeEntry (its own helpers inline, the join loop walked for up to three columns, deferred functions run at their function's return) and matching the writes to the line buffer against: columns joined by the configured separator placed before every column but the first; [separator iff the line is non-empty, message]; the context rendered on a COPYING clone of the embedded spaced JSON encoder (it carries the With-context bytes) that receives the call-site fields and closes its open namespaces before its emptiness is tested, and, if non-empty, written as separator-iff-non-empty '{' bytes '}'; the clone's buffer freed and the clone recycled only after its bytes were copied; [newline, stack]; line ending last. The context's own well-formedness reduces to the JSON encoder's rules (C01), which cover the same methods. The constructor defaults the separator to a tab and builds the JSON part in spaced mode; every optional column encoder call is nil-guarded; encoding never stores through the shared encoder. " +
+			"Also decided: consoleEncoder.Clone carries the context bytes, configuration, spacing and the open-namespace count of the encoder it copies (the context it later renders is the JSON encoder's). " +
 			"NOT decided: what user column encoders print, fmt.Fprint of column elements, lines with more than three metadata columns beyond the per-column step.",
 		Assumptions: commonAssumptions,
 	}
